@@ -4,6 +4,9 @@ EXTENDS Topics
 GFilters == {<<"a">>, <<"a","b">>, <<"a","#">>, <<"+">>}
 GFilters3 == {<<"a">>, <<"a","b">>, <<"a","#">>}
 GNames == {<<"a">>, <<"a","b">>, <<"b">>}
+\* graph configuration "multi": three subscribers on the same filters with all QoS levels
+MFilters == {<<"a","+">>, <<"a","b">>}
+MNames == {<<"a","b">>, <<"a","c">>}
 \* graph configuration "ret": retained store on parent / child / sibling, one wildcard subscriber
 RFilters == {<<"a">>, <<"a","+">>, <<"#">>, <<"a","b">>}
 RNames == {<<"a">>, <<"a","b">>, <<"a","c">>}
